@@ -16,3 +16,23 @@ CHECKS["C18"] = dict(
          "so small-scope exhaustiveness is the right level.",
     note="Trusted: TLC's evaluation of set comprehensions; Python's int/float ordering; NaN is outside the domain.",
     design_ref="DESIGN.md section 5, C18")
+CHECKS["C09"] = dict(
+    level="model_checking",
+    technique="TLA+ reference interpreter Eval (Query.tla) enumerated by TLC; exported truth vectors replayed into the real DSL; recorded random expressions judged by TLC",
+    text="TLC enumerates the whole bounded expression language (every operator of every query type; a, ~a, a&b, a|b over ~90 atoms; "
+         "nesting depth 3 over a basis) and evaluates the reference interpreter on every point of a universe holding each combination of "
+         "missing key / None / lowest / equal-to-bound / above-bound values; every expression is built with the real DSL and called on every "
+         "real Point: any mismatch or exception is a violation. Random deeper expressions are evaluated by the real code and judged by TLC. "
+         "De Morgan, double negation and commutation of Eval itself are TLC invariants.",
+    note="Trusted: the theme (ranks -> real values) is an order-embedding (verified at start-up); user callables are total functions from a fixed table; "
+         "matches() is only exercised on patterns where prefix- and whole-string matching agree.",
+    design_ref="DESIGN.md section 5, C09")
+CHECKS["C17"] = dict(
+    level="model_checking",
+    technique="TLC-generated expression pairs; implementation's ==/hash verdicts recorded and judged by TLC against SemEq / commutation / map clauses of MC_Query.tla",
+    text="All ordered pairs over ~1000 TLC-generated expressions (atoms incl. same-regex-different-flags and same-test-different-args, negations, "
+         "simple/simple, simple/compound, compound/compound conjunctions and disjunctions with their commuted forms, map before and after the key) are built "
+         "independently with the real DSL; every pair the implementation calls equal, or that the property requires equal, is judged by TLC: equal => same truth "
+         "value on every universe point and same hash and no map function; commuted operands => equal.",
+    note="Trusted: real evaluation = Eval (C09); same callable object per abstract function id.",
+    design_ref="DESIGN.md section 5, C17")
